@@ -893,7 +893,9 @@ def strip_hidden(item, impl):
 
 
 def sig_name(s):
-    return getattr(s, "__name__", None) or str(s).replace("typing.", "")
+    if s is None or isinstance(s, type):
+        return getattr(s, "__name__", "None")
+    return str(s).replace("typing.", "").replace("kernel.term.", "").replace("kernel.type.", "")
 
 
 def dump_args(a):
@@ -1385,11 +1387,18 @@ MANIFEST = {
             "application, binders, if, atoms) the bracket rules of the printer are sufficient for a recursive-descent parser driven by the regenerated "
             "grammar ladder of syntax/parser.py, for every table/ladder pair satisfying an explicit decidable consistency condition that is discharged "
             "for the generated tables on every run (a priority or associativity changed in only one of the two files breaks it). The real printer and "
-            "parser are tied to the model by differential runs, and the property itself (terms, types, sequents, instantiations, proof items; 12 printer "
-            "settings; memo histories) is checked by round-trip on type-directed generated terms over the library signatures and on all library statements.",
+            "parser are tied to the model by differential runs, and the property itself (terms, types, sequents, instantiations with all their components, "
+            "proof items with subproofs; 12 printer settings; memo histories within one theory and across theory changes) is checked by round-trip on "
+            "type-directed generated terms over the library signatures and on all library statements. The theorems are about TOKEN lists: the binder "
+            "spellings of operator.py/pprint.py and the operator spellings are tied to the grammar by table_consistent, but no theorem relates the "
+            "printed TEXT to tokens.",
     "note": "Trusted: Lean kernel, propext/Classical.choice/Quot.sound; the harness generator, its own alpha-equality and type checker; the regex reader "
-            "of the grammar; Lark's LALR tables and contextual lexer (model parser compared, not proved equal). Not covered by a theorem: minimal type "
-            "annotations (infer_printed_type), literals, binder renaming, line breaking beyond whitespace-irrelevance of the lexer, highlight colours.",
+            "of the grammar; Lark's LALR tables and contextual lexer (model parser compared, not proved equal). Not covered by ANY theorem (run-time "
+            "round trip and model-lexer correspondence only): the step from printed text to tokens -- spacing, the '. ' terminal, unary vs binary '-', "
+            "keyword/identifier clashes, NameOK, line breaking (the former lex_drops_whitespace_partial was a one-step unfolding and is no longer claimed); "
+            "minimal type annotations (infer_printed_type), literals, binder renaming, highlight colours, types/sequents/instantiations/proof items. The "
+            "model lexer is a plain longest-match lexer, NOT Lark's contextual lexer: texts such as `INT UN S` (keywords read as identifiers where no "
+            "operator can stand) or `a|-b` parse in Lark and are rejected by the model; the comparison with Lark therefore only counts NameOK texts.",
     "design_ref": "DESIGN.md 4/C07",
 }
 FINDINGS = [
@@ -1429,6 +1438,8 @@ FINDINGS = [
              "(also inside Char) were printed as literals"},
     {"status": "fixed", "key": "print-raises:many-annotations", "commit": "fixes/C07-12.patch",
      "what": "infer_printed_type gave up after 99 annotations: a conjunction of 101 copies of ([]::'a list) = [] raised AssertionError"},
+    {"status": "fixed", "key": "roundtrip:char-underscore", "commit": "fixes/C07-14.patch",
+     "what": "Char 95 prints as '_' and parse_term(\"'_'\") raised TypeError (the anonymous token \"_\" is filtered out of the parse tree)"},
     {"status": "fixed", "key": "item-roundtrip:inst-tyinst", "commit": "fixes/C07-13.patch",
      "what": "export_proof_item dropped the type part (Inst.tyinst) of an instantiation; it is now written {'a: T, x: t} and read back by parse_inst"},
     {"status": "fixed", "key": "roundtrip:char-string-literal", "commit": "31716be",
